@@ -22,7 +22,7 @@ VECTOR = ["model: clone_* (erase original) = erase (real clone)",
           "monitor c18_keepstate / c18_default_pristine on the real clone",
           "monitor c18_default_resubmittable on the real clone (Validate and Submit accept)",
           "monitor c18_no_sharing: label sets of clone and original disjoint",
-          "Go-side monitor (1 address ranges overlap, 2 mutating the clone changed the original, 3 mutating the original changed the clone, 4 panic, 5 Submit of the clone changed the original, 6 clone holds a value outside the modelled domain, 7 the clone depends on the state of the Context)",
+          "Go-side monitor (1 address ranges overlap, 2 mutating the clone changed the original, 3 mutating the original changed the clone, 4 panic, 5 Submit of the clone changed the original, 6 clone holds a value outside the modelled domain, 7 the clone depends on the state of the Context, 8 the clone depends on the order / repetition of the options)",
           "model self-check: labelled model erases to the value model and allocates fresh labels"]
 
 
@@ -83,7 +83,8 @@ def run(ctx):
              "slices, nil elements, empty sequence, empty attempts, blank names, short timeout, unknown plugin, rejected / nil request); the object "
              "cloned is the plan or a block / sequence / checks group / action of it; each case = one original x the 4 option sets; the observed clone of each option set is made under a Context of a kind that rotates "
              "through live / already cancelled / deadline passed / cancelled from another goroutine during the call, and for every option set the clones "
-             "under all four kinds of Context are compared with each other; evaluations = "
+             "under all four kinds of Context are compared with each other; likewise the options are passed in an order / with a repetition that rotates "
+             "(both orders, and S,T,S / T,S,T / T,T,S / S,S,T; a single option once or twice) and the clones for all these lists are compared; evaluations = "
              "(original, option set) observations; distinct = distinct case terms by hash; non-trivial = the original has more than 3 "
              "pointer/slice/map nodes",
         samples=[dict(id=c["id"], kind=c["kind"], input=c["input"], dist=c["dist"], observed=c["observed"]) for c in cases[:3]],
@@ -93,6 +94,7 @@ def run(ctx):
                           mode=fw.histogram(c["dist"]["mode"] for c in cases),
                           stream=fw.histogram(c["dist"]["stream"] for c in cases),
                           context=fw.histogram("%s/%s" % (c["dist"]["kind"], o["context"]) for c, o in obs),
+                          option_list=fw.histogram("ks=%s st=%s list#%s" % (o["keep_secrets"], o["keep_state"], o["option_list"]) for c, o in obs),
                           meta_shape=fw.histogram(c["dist"]["meta_shape"] for c in cases if c["dist"]["kind"] == "plan"),
                           irregular=fw.histogram(x for c in cases for x in (c["dist"]["irregular"] or [])),
                           nodes=fw.histogram(min(c["dist"]["nodes"] // 10 * 10, 200) for c in cases),
